@@ -517,11 +517,14 @@ pub fn generate(opts: &VoiceOpts, pool: &QuestionPool, rng: &mut Rng) -> VoiceSp
         mcp_opts.push(format!("LN_GAIN={}", ln_gain as u8));
     }
     // the header may list the options in any order
+    // (a permutation derived from the voice's shape, so that every relative order of the
+    // entries occurs over the voices without touching the random stream)
     if mcp_opts.len() > 1 {
-        let k = opts.opt_order % mcp_opts.len();
-        mcp_opts.rotate_left(k);
-        if opts.opt_order >= 3 {
-            mcp_opts.reverse();
+        let mut x = (opts.opt_order * 131 + opts.nstate * 31 + opts.mcp_len * 7 + opts.lpf_len + opts.win_mcp * 3) as u64;
+        for i in (1..mcp_opts.len()).rev() {
+            x = x.wrapping_mul(6364136223846793005).wrapping_add(1442695040888963407);
+            let j = ((x >> 33) as usize) % (i + 1);
+            mcp_opts.swap(i, j);
         }
     }
     let gv_mcp = if opts.gv_mcp && !transparent {
